@@ -71,6 +71,51 @@ def check(run, driver):
         if abs(hp - h) > TOL:
             run.prop_fail("estimate depends on sample order", case, {**sig, "clause": "order"}, {"base": h, "permuted": hp, "perm": pm})
     run.extra["max_abs_diff_vs_reference"] = worst
+    # ---- seam tie with the Lean model (CEModel/Geometric.lean): what the implementation hands to l2dist / svd / hyperellipsoid_check
+    #      must be the model's k-th neighbour, centred neighbourhood Y_i and offsets Z_i (exact rational evaluation)
+    from common import mat, patched, unval
+    reqs, meta = [], []
+    for it in range(60 if thorough else 20):
+        d = int(rng.integers(1, 5)); k = int(rng.integers(1, 6)); N = int(rng.integers(k + 2, 16))
+        X = np.round(rng.standard_normal((N, d)) * 2**12) / 2**12
+        rec = {"l2": [], "svd": [], "hyp": []}
+        real_l2, real_svd, real_hyp = E.l2dist, np.linalg.svd, E.hyperellipsoid_check
+
+        def l2(a, b):
+            rec["l2"].append((np.array(a, copy=True), np.array(b, copy=True))); return real_l2(a, b)
+
+        def svd(a, *aa, **kk):
+            rec["svd"].append(np.array(a, copy=True)); return real_svd(a, *aa, **kk)
+
+        def hyp(sv, z):
+            rec["hyp"].append(np.array(z, copy=True)); return real_hyp(sv, z)
+
+        with patched(E, "l2dist", l2), patched(np.linalg, "svd", svd), patched(E, "hyperellipsoid_check", hyp):
+            E.geometric_knn_entropy(X, cdist(X, X), k)
+        run.case("seams", [N, d, k, float(X[0, 0])], d >= 2 and k >= 2)
+        meta.append(({"N": N, "d": d, "k": k, "X": X}, rec)); reqs.append({"op": "geom_parts", "X": mat(X), "k": k})
+    for (case, rec), r in zip(meta, driver.run_sharded(reqs)):
+        if "ok" not in r:
+            run.corr_fail("seams", case, r, None, "driver error"); continue
+        parts = r["ok"]; N, k, X = case["N"], case["k"], case["X"]
+        ok = len(rec["l2"]) == N and len(rec["svd"]) == N and len(rec["hyp"]) == N * k
+        if ok:
+            for i, p in enumerate(parts):
+                a, b = rec["l2"][i]
+                kth = p["nbrs"][k - 1]
+                ok = ok and np.array_equal(a, X[i]) and np.array_equal(b, X[kth]) and abs(float(((a - b) ** 2).sum()) - float(unval(p["rho2"]))) <= 1e-12 * max(1.0, float(unval(p["rho2"])))
+                Y = np.array([[float(unval(v)) for v in row] for row in p["Y"]]).reshape(k + 1, -1)
+                Z = np.array([[float(unval(v)) for v in row] for row in p["Z"]]).reshape(k, -1)
+                ok = ok and rec["svd"][i].shape == Y.shape and np.allclose(rec["svd"][i], Y, rtol=0, atol=1e-12)
+                ok = ok and all(np.allclose(rec["hyp"][i * k + jj], Z[jj], rtol=0, atol=1e-12) for jj in range(k))
+                if not ok:
+                    run.corr_fail("seams", {**case, "sample": i}, {"kth_neighbour": kth, "Y": Y.tolist(), "Z": Z.tolist()},
+                                  {"l2dist_args": [a.tolist(), b.tolist()], "svd_arg": rec["svd"][i].tolist()},
+                                  "what the implementation hands to l2dist / svd / hyperellipsoid_check differs from the model's neighbour, Y_i, Z_i")
+                    break
+        else:
+            run.corr_fail("seams", case, f"{N} l2dist, {N} svd, {N * k} ellipsoid checks", {kk: len(v) for kk, v in rec.items()}, "call counts at the seams")
+        run.traces += 1
     # ---- MI / CMI as documented signed sums
     for it in range(90 if thorough else 30):
         dx, dy, dz = int(rng.integers(1, 3)), int(rng.integers(1, 3)), int(rng.integers(1, 3))
